@@ -239,7 +239,7 @@ where
 // foreign node is left in a state from which its owner can continue.
 pub(crate) const K_PAY_ALL_2_NODES: usize = 64;
 
-// @harness name=solo_pay_all props=C09,C12,C01,C17 tier=quick flavour=nostd timeout=2400 fn=Debt::pay_all+LocalNode::help+helping::Slots::help+Node::reserve_writer
+// @harness name=solo_pay_all props=C09,C12,C01,C17,C10 tier=quick flavour=nostd timeout=2400 fn=Debt::pay_all+LocalNode::help+helping::Slots::help+Node::reserve_writer
 #[cfg_attr(kani, kani::proof)]
 #[cfg_attr(kani, kani::stub(crate::debt::Node::traverse, crate::debt::verif_h::list_h::traverse_unrolled2))]
 #[cfg_attr(kani, kani::stub(crate::debt::LocalNode::with, crate::debt::verif_h::list_h::with_static))]
@@ -275,7 +275,8 @@ pub(crate) fn solo_pay_all() {
     list_h::poke_active_writers(foreign, fw);
     unsafe {
         REPL_CALLS = 0;
-        REPL_OBJ = 2;
+        // the value now stored may be another one or the very value being retired (stored again)
+        REPL_OBJ = if nd::any_bool() { 2 } else { 0 };
     }
     let pre_f = list_h::view(foreign);
     model::log_reset();
